@@ -50,7 +50,7 @@ func (*c07) ID() string                     { return "C07" }
 func (*c07) Level() string                  { return "fault_enumeration" }
 func (*c07) Decode(raw []byte) (any, error) { return decodeInto[C07Scenario](raw) }
 
-var c07AuthTypes = []string{"", "PLAIN", "LOGIN", "PLAIN-NOENC", "LOGIN-NOENC", "CRAM-MD5", "XOAUTH2", "SCRAM-SHA-1", "SCRAM-SHA-256", "SCRAM-SHA-1-PLUS", "SCRAM-SHA-256-PLUS", "AUTODISCOVER", "NOAUTH", "CUSTOM-PLAIN", "CUSTOM-LOGIN"}
+var c07AuthTypes = []string{"", "PLAIN", "LOGIN", "PLAIN-NOENC", "LOGIN-NOENC", "CRAM-MD5", "XOAUTH2", "SCRAM-SHA-1", "SCRAM-SHA-256", "SCRAM-SHA-1-PLUS", "SCRAM-SHA-256-PLUS", "AUTODISCOVER", "NOAUTH", "CUSTOM-PLAIN", "CUSTOM-LOGIN", "CUSTOMNOENC-THEN-PLAIN", "CUSTOMNOENC-THEN-LOGIN", "NOENC-THEN-PLAIN", "NOENC-THEN-LOGIN"}
 
 func (p *c07) build(seed uint64, tier string) []C07Scenario {
 	key := fmt.Sprintf("%d/%s", seed, tier)
